@@ -193,5 +193,5 @@ BULK_ADD = dict(
 CONTRACTS = [SAMPLER_SAMPLES, TO_EXT, BULK_ADD, POSTPROC, SEND_SAMPLES, W_DRIVE, MOVE_NEXT, MAY_COMPLETE, JOINPOINT, UPDATE, POST_PROCESS]
 ASSUMPTIONS = ["FIFO delivery (UpdateSamples before JoinPointReached of the same worker); pickle/zlib round trip of externalised metrics is the identity", "queue.Queue.get_nowait returns the oldest item or raises queue.Empty exactly when the queue is empty (Sampler.samples itself is under contract)",
                "the executor thread only touches sampler, complete, cancel"]
-NOT_DECIDED = ["interleaving of periodic ticks, shipments and hand-overs (outside this family)", "the service_time record count of SamplePostprocessor (checked at its call site only), throughput records, MetricsStore._put_metric / to_externalizable / bulk_add (not under contract)"]
+NOT_DECIDED = ["interleaving of periodic ticks, shipments and hand-overs (outside this family)", "the service_time record count of SamplePostprocessor (checked at its call site only), throughput records, MetricsStore._put_metric (not under contract); pickle / zlib round trip (assumed identity)"]
 TRUSTED = []
